@@ -64,6 +64,27 @@ def validate_evidence(path):
     return None
 
 
+def replay_unit(mod, rec):
+    """generic replay: re-execute the unit of the exploration that contained
+    the case (twice - the observations must be identical) and look for the
+    same deviation (same description and digest)"""
+    if hasattr(mod, "worker_init"):
+        mod.worker_init()
+    found = []
+    for _ in range(2):
+        res = mod.run_unit(rec["unit"])
+        found.append(sorted((v["what"], v["digest"])
+                            for v in res.get("violations", [])
+                            if v["digest"] == rec["digest"]
+                            and v["what"] == rec["what"]))
+    if found[0] != found[1]:
+        return False, f"NONDETERMINISTIC replay: {found}"
+    if found[0]:
+        return False, f"reproduced: {rec['what']} [{rec['digest']}]\n" \
+            f"case: {json.dumps(rec['case'], default=str)[:600]}"
+    return True, "the recorded deviation does not occur"
+
+
 def main(prop, argv=None):
     ap = argparse.ArgumentParser(prog=f"check {prop}")
     ap.add_argument("--tier", default=os.environ.get("VERIF_TIER") or "quick",
@@ -82,7 +103,10 @@ def main(prop, argv=None):
 
     if args.replay:
         rec = json.load(open(args.replay))
-        ok, text = mod.replay(rec)
+        if "unit" in rec:
+            ok, text = replay_unit(mod, rec)
+        else:
+            ok, text = mod.replay(rec)
         print(text)
         if not ok:
             print(f"VIOLATION property={prop} replay={args.replay}")
@@ -111,6 +135,8 @@ def main(prop, argv=None):
 
     total = {}
     for idx in sorted(results):
+        for v in results[idx].get("violations", []):
+            v["unit"] = units[idx]        # makes the case replayable
         explore.merge(total, results[idx])
     wall = time.time() - t0
 
